@@ -278,17 +278,28 @@ def check(ctx, rep):
             rep.fail("R14b", q, detail="multiplexer not found")
             continue
         problems = []
+        # the multiplexer with the helpers of its module it calls (the search loop may live in one of them)
+        scope, work_ = [], [f]
+        while work_:
+            g_ = work_.pop()
+            if g_ in scope:
+                continue
+            scope.append(g_)
+            for n in ast.walk(g_.node):
+                if isinstance(n, ast.Call) and isinstance(n.func, ast.Name) and n.func.id in f.module.functions:
+                    work_.append(f.module.functions[n.func.id])
+        nodes_ = [n for g_ in scope for n in ast.walk(g_.node)]
         globs = set()
-        for n in ast.walk(f.node):
+        for n in nodes_:
             if isinstance(n, ast.Global):
                 globs.update(n.names)
         # the classes are tried in a loop / comprehension: the object is built by calling the loop variable
         loopvars = set()
-        for n in ast.walk(f.node):
+        for n in nodes_:
             if isinstance(n, (ast.For, ast.comprehension)):
                 loopvars.update(x.id for x in ast.walk(n.target) if isinstance(x, ast.Name))
-        ctor_calls = [n for n in ast.walk(f.node) if isinstance(n, ast.Call) and isinstance(n.func, ast.Name) and n.func.id in loopvars]
-        ctors = [n for n in ast.walk(f.node) if isinstance(n, ast.Assign) and any(n.value is c for c in ctor_calls)]
+        ctor_calls = [n for n in nodes_ if isinstance(n, ast.Call) and isinstance(n.func, ast.Name) and n.func.id in loopvars]
+        ctors = [n for n in nodes_ if isinstance(n, ast.Assign) and any(n.value is c for c in ctor_calls)]
         if not ctor_calls:
             problems.append(f"no {what} object is constructed per request")
         for n in ctors:
@@ -297,7 +308,7 @@ def check(ctx, rep):
                     problems.append(f"the {what} object is stored in module state")
                 if isinstance(t, (ast.Attribute, ast.Subscript)):
                     problems.append(f"the {what} object is stored in `{norm(t)}` (shared between requests)")
-        for n in ast.walk(f.node):
+        for n in nodes_:
             if isinstance(n, ast.Call) and isinstance(n.func, ast.Attribute) and n.func.attr in ("setdefault", "get") and \
                     isinstance(n.func.value, ast.Name) and n.func.value.id in f.module.globals and "cache" in n.func.value.id.lower():
                 problems.append("objects are looked up in a module-level cache")
@@ -321,6 +332,11 @@ def check(ctx, rep):
                         problems.append(f"header cache stored in `{d}` (shared between connections)")
                     elif isinstance(t, ast.Name) and any(isinstance(g, ast.Global) and t.id in g.names for g in ast.walk(hs.node)):
                         problems.append("header cache stored in a module-level variable")
+        for n in ast.walk(hs.node):
+            if isinstance(n, ast.Call) and dotted(n.func) == "setattr" and n.args and (dotted(n.args[0]) or "") == "self.requesthandler":
+                ok = True
+            elif isinstance(n, ast.Call) and dotted(n.func) == "setattr" and n.args and not (dotted(n.args[0]) or "").startswith("self"):
+                problems.append(f"header cache stored on `{norm(n.args[0])}` (shared between connections)")
         if not ok:
             problems.append("the header cache is not attached to the per-connection request handler")
         rep.add("R14b", f"{hs.qualname}: header cache per connection", not problems, ctx.where(hs), "; ".join(sorted(set(problems))), key="R14b|headerslurp")
